@@ -5,7 +5,7 @@ from .. import catalog as CAT
 
 ID = "C13"
 LEAN_MODULE = "Ucfg.Props.C13"
-LEVEL_TEXT = 'Frame theorems (skipped, unmentioned primitive/pointer fields unchanged; list lengths); atomicity on failure and the frame of whole results are oracles on the implementation (shallow key before/after incl. slice elements; catalogue types for Validate ordering).'
+LEVEL_TEXT = 'Frame theorems per field (skipped, unmentioned primitive/pointer fields unchanged; list lengths) and lifted to whole structs (struct_frame, unpack_frame: after a successful Unpack every field the configuration has nothing for - at any position among any other fields - holds what it held); atomicity on failure and the frame of whole results are oracles on the implementation (shallow key before/after incl. slice elements; catalogue types for Validate ordering).'
 CORRESPONDENCE = "Unpack.{reifyStructT,getField',mergeValue,sliceMerge} ~ (*Config).Unpack into pre-filled reflect.StructOf targets"
 RULE = ("C04's type generator with pre-filled targets (every field holds a random value of its type) x configurations mentioning a "
         "random subset of the fields (possibly none) x slice policies (append/prepend/replace/merge tags and global options) x one fault "
